@@ -31,6 +31,8 @@ const rule = "case = options (Charset, JSONIndent, XMLIndent; or none) x Rendere
 var assumptions = []string{
 	"values are encodable (statement): strings are valid UTF-8 without characters XML cannot represent, floats are finite",
 	"empty slices are generated as nil (encoding/xml and encoding/json cannot tell them apart after decoding)",
+	"with several Renderer middlewares in a chain a handler gets the Render of the nearest one in front of it (C04: the nearest registration wins)",
+	"a Renderer is configured by the option values it was given when it was made: changing the caller's variable afterwards changes nothing",
 }
 
 func TestMain(m *testing.M) { evid.Main(m, "C17", rule, assumptions) }
@@ -409,6 +411,12 @@ func checkCase(c Case) (out evid.Outcome) {
 	if c.PreCT != "" {
 		out.NonTrivial = true
 		out.Classes = append(out.Classes, "content-type-set-before")
+	}
+	if c.Outer && c.At != "use" {
+		out.Classes = append(out.Classes, "another-renderer-in-front")
+	}
+	if c.SharedSlice && c.Opts != nil {
+		out.Classes = append(out.Classes, "options-slice-reused")
 	}
 	out.Classes = append(out.Classes, "kind:"+c.Kind, "at:"+c.At)
 	return out
